@@ -38,7 +38,9 @@ ALPHABET_QUICK = ("tA+6", "tA+5", "tA=", "tA-3", "tA-9", "tB+6", "bounce1")     
 ALPHABET_DEEP = ("tA+6", "tA+5", "tA=", "tA-3", "tA-9", "tB+6", "bounce")               # any number of reconnects
 ALPHABET_WIDE = ("tA+6", "tA+5", "tA=", "tA-3", "tB+6", "bounce", "tAB+6", "tB-3", "next")
 # (alphabet, depth) explored per tier; thorough contains the quick space
-PLAN = {"quick": [(ALPHABET_QUICK, 6)], "thorough": [(ALPHABET_DEEP, 7), (ALPHABET_WIDE, 6)]}
+# a run_started for the active run delivered again in the middle of the stream (buffered / re-sent after a reconnect)
+ALPHABET_RESENT = ("tA+6", "tA+3", "rs1", "tB+6", "tA=")
+PLAN = {"quick": [(ALPHABET_QUICK, 6), (ALPHABET_RESENT, 4)], "thorough": [(ALPHABET_DEEP, 7), (ALPHABET_WIDE, 6), (ALPHABET_RESENT, 6)]}
 
 
 def _row_step(obs):
